@@ -198,12 +198,13 @@ func runAnswers(kind, payload string) string {
 				}
 				tags += " cuts=" + small(ri.cutsRun) + " livecuts=" + small(ri.cutPending)
 			case "c04":
-				// a ball crossed a catch/3 that did not match or whose goal had exited
-				if ri.crossExited+ri.crossNoMatch > 0 {
+				// a ball crossed a catch/3 that did not match or whose goal had exited, or was caught by
+				// a catch/3 that had been re-entered by backtracking after its goal had exited
+				if ri.crossExited+ri.crossNoMatch+ri.caughtAfterRedo > 0 {
 					nt = 1
 				}
 				tags += " throws=" + small(ri.throws) + " caught=" + small(ri.caught) +
-					" xexited=" + small(ri.crossExited) + " xnomatch=" + small(ri.crossNoMatch)
+					" xexited=" + small(ri.crossExited) + " xnomatch=" + small(ri.crossNoMatch) + " redocaught=" + small(ri.caughtAfterRedo)
 			}
 		}
 	}
